@@ -28,11 +28,12 @@ InitLayouts == {l \in [tree : BOOLEAN, br : {"local", "bound", "ref"}, repo : {"
                        fmt : InitFormats, sfmt : InitFormats \cup {"none"}, dirty : BOOLEAN] :
                     ValidLayout(l) /\ (l.above => l.sfmt = l.fmt)}
 Init == lay \in InitLayouts /\ content = Content0 /\ last = "none" /\ steps = 0
-Do(p) == /\ steps < MaxSteps /\ steps' = steps + 1
+Do(p) == /\ steps < MaxSteps /\ steps' = steps + 1 /\ last # "diverges"
          /\ lay' = p.lay /\ last' = p.out
          /\ UNCHANGED content
-Reconfigure(k) == Do(Plan(lay, k))
-Upgrade(f) == Do(PlanUpgrade(lay, f))
+\* (the leading conjunct keeps the action's own name and argument on the edges of the dumped state graph)
+Reconfigure(k) == k \in Targets /\ Do(Plan(lay, k))
+Upgrade(f) == f \in Formats /\ Do(PlanUpgrade(lay, f))
 UpgradeShared(f) == lay.above /\ Do(PlanUpgradeShared(lay, f))
 Next == (\E k \in Targets : Reconfigure(k)) \/ (\E f \in Formats : Upgrade(f) \/ UpgradeShared(f))
 Spec == Init /\ [][Next]_vars
@@ -42,7 +43,7 @@ ContentPreserved == content = Content0
 \* a tree that survives keeps its pending changes; a tree that is created is clean; a refusal changes nothing
 PendingKept == [][(lay.tree /\ lay'.tree) => lay'.dirty = lay.dirty]_vars
 CreatedClean == [][(~lay.tree /\ lay'.tree) => ~lay'.dirty]_vars
-RefusalIsNoop == [][(last' \in {"already", "refused"}) => lay' = lay]_vars
+RefusalIsNoop == [][(last' \in {"already", "refused", "diverges"}) => lay' = lay]_vars
 \* pending changes are never silently dropped: a dirty tree is only ever kept
 NeverDropsPending == [][lay.dirty => lay'.dirty]_vars
 \* anti-vacuity
